@@ -13,6 +13,39 @@ def group_of(prog, root):
     return [root] + prog.closures_of(root)
 
 
+_DELEGATION = {}
+
+
+def delegate_target(prog, root):
+    """a routine that only forwards to a private helper (`extremum(self, Ordering::Less)`) is analysed as that helper, with the
+    helper's parameters mapped to the arguments of the call: → (body to analyse, {helper param index: argument expression})"""
+    calls = [(bb, t) for bb, t in root.calls()]
+    if len(calls) != 1:
+        return root, {}
+    bb, t = calls[0]
+    cb = prog.local_callee_body(t)
+    if cb is None or cb.is_closure or cb.key in prog.exported or cb.key == root.key:
+        return root, {}
+    r = strip(root.return_expr())
+    me = strip(root.call_expr(bb))
+    if r != me:
+        return root, {}
+    args = [strip(a) for a in root.call_arg_exprs(bb)]
+    if not args or args[0][:2] != ("param", 1):
+        return root, {}
+    _DELEGATION[cb.key] = {i + 1: a for i, a in enumerate(args)}
+    return cb, _DELEGATION[cb.key]
+
+
+def through_delegation(prog, pb, pe):
+    """a helper parameter → the argument the forwarding routine passes for it"""
+    pe = strip(pe)
+    m = _DELEGATION.get(pb.key)
+    if m and isinstance(pe, tuple) and pe[0] == "param" and pe[1] in m:
+        return m[pe[1]]
+    return pe
+
+
 def contains(e, pred):
     return any(pred(x) for x in walk(e))
 
@@ -100,6 +133,9 @@ def direction_of(prog, root):
                 # ORD == Ordering::X
                 for x, y in ((e[3][0], e[3][1]), (e[3][1], e[3][0])):
                     y2 = strip(y)
+                    if isinstance(y2, tuple) and y2[0] in ("upvar", "param"):
+                        pb_, pe_ = up(prog, b, y2)
+                        y2 = strip(through_delegation(prog, pb_, pe_))
                     if isinstance(y2, tuple) and y2[0] == "agg" and y2[1] == "std::cmp::Ordering":
                         pcs = [z for z in walk(x) if z[0] == "call" and z[1] in ("partial_cmp", "cmp")]
                         if pcs:
@@ -209,6 +245,7 @@ def rule_r7_direction(ctx, prog, table, rule="R7"):
     n = 0
     for name, want in table.items():
         root = prog.method("QuantileExt", name)
+        root, _pm = delegate_target(prog, root)
         got, why = direction_of(prog, root)
         n += 1
         ctx.ob(rule, "%s/direction" % name, got == want, root.where(),
@@ -222,6 +259,7 @@ def rule_r7_plain(ctx, prog, rule="R7"):
     """NaN discipline + whole-array traversal + index/value pairing of argmin/argmax/min/max"""
     for name in PLAIN:
         root = prog.method("QuantileExt", name)
+        root, _pm = delegate_target(prog, root)
         grp = group_of(prog, root)
         # (i) every element comparison is partial_cmp → ok_or(UndefinedOrder) → ?
         n_pc = 0
@@ -316,7 +354,7 @@ def rule_r7_plain(ctx, prog, rule="R7"):
                     continue
                 a0 = strip(args[0])
                 if nm == "fold" and kr == "ndarray":
-                    if a0 == ("param", 1, "self"):
+                    if a0[:2] == ("param", 1):
                         scans.append((b, bb, a0, "fold over the whole receiver"))
                     else:
                         trav_detail = "fold over `%s`, not over self" % fmt(a0)
@@ -324,7 +362,7 @@ def rule_r7_plain(ctx, prog, rule="R7"):
                 if kr in ("core", "std", "alloc") and nm in ("next", "fold", "try_fold", "for_each", "try_for_each", "nth", "skip", "step_by", "take",
                                                                "next_back", "advance_by", "skip_while", "take_while", "filter", "nth_back", "rev", "last"):
                     rb, re_, chain, bad = producer_chain(prog, b, args[0])
-                    if strip(re_) != ("param", 1, "self"):
+                    if strip(re_)[:2] != ("param", 1):
                         continue
                     extra = [c for c in chain if c not in TRAVERSAL_OK]
                     in_loop = t.get("target") is not None and bb in b.reachable_from(t["target"])
